@@ -163,7 +163,7 @@ func (h *c14Hooks) handler(name string, args ...string) {
 		h.inflight--
 		delete(h.armed, goid())
 	}
-	if h.enabled && (name == "diag.start" || name == "diag.publish" || name == "config.start") && h.next < len(h.delays) {
+	if h.enabled && (name == "diag.start" || name == "diag.publish" || name == "config.start" || name == "config.answer") && h.next < len(h.delays) {
 		d = h.delays[h.next]
 		h.next++
 	}
@@ -294,7 +294,11 @@ func c14Execute(c *C14Case, sequential bool) (*c14Run, []ev.Discrepancy) {
 	// Once two configuration refreshes have overlapped, which payload is applied last depends on
 	// their interleaving (the stub hands out a different payload per event): responses that may
 	// depend on settings are then no longer comparable with the sequential replay.
-	settingsUncertain := false
+	cumCfg := map[string]any{}
+	if !sequential {
+		// the answer to a configuration request may be overtaken by that to a later one
+		h.C.AnswerTravel = func() { c14h.handler("config.answer") }
+	}
 	for si, op := range c.Ops {
 		uri := env.URIs[op.Doc%len(env.URIs)]
 		doc := op.Doc % len(env.URIs)
@@ -346,13 +350,28 @@ func c14Execute(c *C14Case, sequential bool) (*c14Run, []ev.Discrepancy) {
 						}
 					}
 				case "config":
+					// a client's configuration is a whole: this change is laid over what it had before
 					cfg := map[string]any{}
-					for k, v := range op.Config {
+					for k, v := range cumCfg {
 						cfg[k] = v
 					}
-					if done, _ := c14h.snapshot(); done < cfgCalls {
-						settingsUncertain = true
+					for k, v := range op.Config {
+						sec, isSec := v.(map[string]any)
+						old, hadSec := cfg[k].(map[string]any)
+						if isSec && hadSec {
+							merged := map[string]any{}
+							for kk, vv := range old {
+								merged[kk] = vv
+							}
+							for kk, vv := range sec {
+								merged[kk] = vv
+							}
+							cfg[k] = merged
+						} else {
+							cfg[k] = v
+						}
 					}
+					cumCfg = cfg
 					h.C.SetConfig(cfg)
 					_ = h.ChangeConfiguration()
 					cfgCalls++
@@ -369,7 +388,7 @@ func c14Execute(c *C14Case, sequential bool) (*c14Run, []ev.Discrepancy) {
 					resp = strings.ReplaceAll(resp, env.Dir, "<ws>") // the two runs use different scratch directories
 					// a response may depend on settings: comparable only when no refresh was in flight
 					cfgDone2, _ := c14h.snapshot()
-					compare = cfgDone >= cfgCalls && cfgDone2 == cfgDone && !settingsUncertain
+					compare = cfgDone >= cfgCalls && cfgDone2 == cfgDone
 				}
 			})
 		}()
